@@ -100,6 +100,9 @@ def body(t, src, deps, prods, beh, ret=None, dirs=()):
     log(f"S {t}")
     hook = os.environ.get("PYTASK_VERIF_BODY_HOOK")
     ds = [int(Path(p).read_text()) for p in deps]
+    if (ROOT / "flags" / f"t{t}").exists():      # untracked failure switch (step kind "flag"): the body raises before writing
+        log(f"X {t}")
+        raise RuntimeError(f"task {t}: fail flag is set")
     if beh == "early":
         log(f"X {t}")
         raise RuntimeError(f"task {t} fails early")
@@ -274,6 +277,14 @@ def render_module(spec, m: int, src_value=None) -> str:
                 bag_expr = {n: f"{bn}[{i + 1}]" for i, n in enumerate(bag_deps)}
                 ann = "list" if bag["kind"] == "list" else "tuple"
         pyhash = [n for n in t.get("pyhash_deps", []) if n in deps]     # optional: hashed Python values instead of path nodes
+        # optional spec field "pyhash_group": {"kind": "tuple"|"list"|"grid", "deps": [n1, n2, ...]}: these (input) dependencies are
+        # declared as ONE hashed Python value holding their contents in order (tuple / list), or as hashed values at the tree
+        # positions [0][1] and [1][0] of one container argument (grid); the values are read from the files at import time
+        grp = t.get("pyhash_group") or {}
+        grp_deps = [n for n in grp.get("deps", []) if n in deps and n not in pyhash and n not in bag_deps]
+        if len(grp_deps) < 2 or not bag_ok:
+            grp_deps = []
+        pyhash = pyhash + grp_deps
         deps = [n for n in deps if n not in pyhash]
         dep_names = [f"d{n}" for n in deps]
         prod_names = [f"p{i}" for i in range(len(prods))]
@@ -296,7 +307,20 @@ def render_module(spec, m: int, src_value=None) -> str:
             params.append(f"{bn}: {ann} = {lit}")
         late_params = []        # optional extras: parameters without defaults (keyword-only)
         for n in pyhash:
-            late_params.append(f"h{n}: Annotated[int, PythonNode(value=rt.hv({n}), hash=True)]")
+            if n not in grp_deps:
+                late_params.append(f"h{n}: Annotated[int, PythonNode(value=rt.hv({n}), hash=True)]")
+        if grp_deps:
+            vals = ", ".join(f"rt.hv({n})" for n in grp_deps)
+            if grp.get("kind") == "grid":
+                n1, n2 = grp_deps[0], grp_deps[1]
+                cells = f"[[0, PythonNode(value=rt.hv({n1}), hash=True)], [PythonNode(value=rt.hv({n2}), hash=True), 0]]"
+                params.append(f"hg{tid}: list = {cells}")
+                for n in grp_deps[2:]:
+                    late_params.append(f"h{n}: Annotated[int, PythonNode(value=rt.hv({n}), hash=True)]")
+            elif grp.get("kind") == "list":
+                late_params.append(f"hg{tid}: Annotated[list, PythonNode(value=[{vals}], hash=True)]")
+            else:
+                late_params.append(f"hg{tid}: Annotated[tuple, PythonNode(value=({vals},), hash=True)]")
         for pidx in t.get("mem_in", []):
             late_params.append(f"mi{pidx}: Annotated[object, _verif_mem.node({pidx})]")
         if t.get("mem_out"):
